@@ -50,8 +50,18 @@ Definition m_equ a b := t2 (ubox_eq Qops a b) (ubox_eq Qops b a).
 Definition m_conv (a : BoundingBox Qops) := t2 (ubz (bbox_to_ubox Qops a)) (obbz (ubox_to_bbox Qops (bbox_to_ubox Qops a))).
 Definition m_convu (u : Universal2DBox Qops) := t2 (obbz (ubox_to_bbox Qops u)) (match ubox_to_bbox Qops u with Some b => Some (ubz (bbox_to_ubox Qops b)) | None => None end).
 Definition m_poly (u : Universal2DBox Qops) (c s : Q) := t3 (map cz (ubox_vertices Qops u c s)) (qz (ubox_area Qops u)) (qz (ubox_radius_sq Qops u)).
+"""
+
+PREAMBLE_BOXX = COMMON + """From Similari Require Import Proofs.BoxExtraProofs.
+From SimilariGen Require Import Consts Scalar ScalarBox.
+Definition BBq := Build_BoundingBox Qops.
+Definition UBq := Build_Universal2DBox Qops.
 Definition m_inter a b := t2 (bbox_intersection_pre Qops a b) (qz (bbox_intersection Qops a b)).
 Definition m_far (a b : Universal2DBox Qops) (ra rb : Q) := t5 (ubox_too_far_r_pre Qops a b ra rb) (ubox_too_far_sq Qops a b) (qz (ubox_dist_in_2r_sq_r Qops a b ra rb)) (qz (ubox_radius_sq Qops a)) (qz (ubox_radius_sq Qops b)).
+"""
+
+PREAMBLE_VIS = COMMON + """From SimilariGen Require Import Consts Scalar ScalarVisual.
+Definition m_vis k d := t2 (visual_is_ok Qops k d) (qz (visual_distance_to_weight Qops k d)).
 """
 
 PREAMBLE_EXTRA = COMMON + """From SimilariGen Require Import Consts Scalar ScalarBox ScalarCost ScalarGate.
@@ -69,7 +79,7 @@ def parse_line(line):
     d = {"kind": toks[0], "raw": line}
     for t in toks[1:]:
         k, v = t.split("=", 1)
-        d[k] = v
+        d["kind_" if k == "kind" else k] = v
     return d
 
 
@@ -142,11 +152,33 @@ def box_expr(c):
         return "m_poly %s %s %s" % (coq_ub(ubq(c["a"])), q_lit(cs[0]), q_lit(cs[1]))
     if k == "norm":
         return "qz (normalize_angle Qops %s %s)" % (q_lit(f32q(int(c["a"]))), q_lit(PI32))
+    return None
+
+
+def boxx_expr(c):
+    k = c["kind"]
     if k == "inter":
         a, b = coq_bb(bbq(c["a"])), coq_bb(bbq(c["b"]))
         return "m_inter %s %s" % (a, b)
     if k == "far":
         return "m_far %s %s %s %s" % (coq_ub(ubq(c["a"])), coq_ub(ubq(c["b"])), q_lit(f32q(int(c["ra"]))), q_lit(f32q(int(c["rb"]))))
+    return None
+
+
+def vis_expr(c):
+    if c["kind"] != "vis":
+        return None
+    ctor = "VisualSortMetricType_Euclidean" if c["kind_"] == "E" else "VisualSortMetricType_Cosine"
+    return "m_vis (%s Qops %s) %s" % (ctor, q_lit(f32q(int(c["t"]))), q_lit(f32q(int(c["d"]))))
+
+
+def corr_vis(c, m):
+    _, ok_m, w_m = m
+    if (c["ok"] == "1") != ok_m:
+        return "is_ok(%s, t=%r, d=%r): implementation %s, model %s" % (c["kind_"], float(f32q(int(c["t"]))), float(f32q(int(c["d"]))), c["ok"], ok_m)
+    wi, wm = f32q(int(c["w"])), zq(w_m)
+    if not close(wi, wm, 2 * ulp32(max(abs(wm), 1))):
+        return "distance_to_weight(%s, d=%r): implementation %r, model %r" % (c["kind_"], float(f32q(int(c["d"]))), float(wi), float(wm))
     return None
 
 
@@ -519,8 +551,8 @@ def input_part(c):
     k = c["kind"]
     keys = {"eqb": ("a", "b", "k"), "equ": ("a", "b", "k"), "conv": ("a",), "convu": ("a",), "poly": ("a",), "norm": ("a",),
             "inter": ("a", "b"), "far": ("a", "b"), "cost": ("d",), "gate": ("mode", "mc", "thr", "a", "b", "hist"),
-            "baked": ("lu", "mi", "ep", "db")}[k]
-    return k + " " + " ".join("%s=%s" % (x, c[x]) for x in keys)
+            "baked": ("lu", "mi", "ep", "db"), "vis": ("kind_", "t", "d")}[k]
+    return k + " " + " ".join("%s=%s" % ("kind" if x == "kind_" else x, c[x]) for x in keys)
 
 
 F32_ONE = 0x3F800000
@@ -627,6 +659,30 @@ def run(chk):
     else:
         chk.broken.append("model not built: Proofs/BoxProofs.vo missing")
     extra_dis = []
+    # functions of bbox.rs that C19 does not speak about (pre-filter, distance, axis-aligned intersection) and the visual
+    # metric kinds: translator spot validation only
+    for (tag, pre, fexpr, fcorr, targets) in (
+            ("c19bx", PREAMBLE_BOXX, boxx_expr, corr_box, ["theories/Proofs/BoxExtraProofs.vo"]),
+            ("c19vs", PREAMBLE_VIS, vis_expr, corr_vis, ["gen/ScalarVisual.vo"])):
+        idx = [i for i, c in enumerate(cases) if fexpr(c) is not None]
+        if not idx:
+            continue
+        okx, outx = vlib.coq_build(targets)
+        if not okx:
+            chk.coverage.setdefault("extra_items_not_evaluated", {})[tag] = "%s does not build (reported by the properties that use it)" % targets
+            continue
+        try:
+            vals = vlib.coq_eval(pre, [fexpr(cases[i]) for i in idx], shard_size=200, tag=tag)
+            for i, v in zip(idx, vals):
+                msg = fcorr(cases[i], vlib.parse_coq_value(v))
+                if msg is None:
+                    compared[cases[i]["kind"]] += 1
+                elif msg.startswith("skip:"):
+                    skipped[msg[5:]] += 1
+                else:
+                    extra_dis.append((cases[i], msg))
+        except (RuntimeError, AssertionError) as e:
+            chk.coverage.setdefault("extra_items_not_evaluated", {})[tag] = str(e)[-600:]
     if extra_idx and consts is not None:
         okx, outx = vlib.coq_build(["gen/ScalarGate.vo", "gen/ScalarCost.vo"])
         if okx:
@@ -641,9 +697,9 @@ def run(chk):
                     else:
                         extra_dis.append((cases[i], msg))
             except (RuntimeError, AssertionError) as e:
-                chk.coverage["extra_items_not_evaluated"] = str(e)[-600:]
+                chk.coverage.setdefault("extra_items_not_evaluated", {})["c19x"] = str(e)[-600:]
         else:
-            chk.coverage["extra_items_not_evaluated"] = "gen/ScalarCost.v / gen/ScalarGate.v do not build (reported by C02/C07)"
+            chk.coverage.setdefault("extra_items_not_evaluated", {})["c19x"] = "gen/ScalarCost.v / gen/ScalarGate.v do not build (reported by C02/C07)"
 
     # ---- property oracle on the implementation --------------------------------------------------------
     fails = []
@@ -693,6 +749,8 @@ def run(chk):
             "count_of_failing_cases_with_this_key": sum(1 for f in fails if f[0] == key),
             "replay_cmd": "printf '%s\\n' '" + input_part(small) + "' > /tmp/c19.txt && " + vlib.harness_bin("boxes") + " replay --file /tmp/c19.txt",
             "broken": chk.broken})
+    if extra_dis:
+        chk.coverage["other_translated_items_first_disagreement"] = {"case": input_part(extra_dis[0][0]), "what": extra_dis[0][1]}
     if not fails and (disagreements or extra_dis or chk.broken):
         what = "proof or correspondence no longer checks: " + "; ".join(b.split("\n")[0][:200] for b in chk.broken)
         rep = {"broken": chk.broken}
